@@ -1789,21 +1789,21 @@ def f_sends_postpone_reconnect():
 
 @finding("C13/connected-without-receiver/connect-cancelled-in-pause", "C13")
 def f_known_cancel_in_pause():
-    """KNOWN: an application connect() cancelled by its caller inside the 10 ms pause after it cancelled the old receive task (whose fault path was
+    """an application connect() cancelled by its caller inside the 10 ms pause after it cancelled the old receive task (whose fault path was
     still waiting behind a slow DISCONNECTED callback, so no reconnect had been scheduled yet): CONNECTED, no receive loop, no reconnect task"""
     return _script("C13_known_connect_cancelled_in_pause.py")
 
 
 @finding("C13/not-recovered/abandon-then-cancelled", "C13")
 def f_known_abandon_cancelled():
-    """KNOWN: continuation: the next connect() gives the reader-less link up and reports DISCONNECTED but schedules no reconnect; if that call is
+    """continuation: the next connect() gives the reader-less link up and reports DISCONNECTED but schedules no reconnect; if that call is
     cancelled too while the gateway refuses, nobody reconnects"""
     return _script("C13_known_abandon_then_cancelled.py")
 
 
 @finding("C13/connected-without-receiver/reconnect-stops-other-connect-cancelled", "C13")
 def f_known_reconnect_stops():
-    """KNOWN: the reconnect task ends when the state reads CONNECTED and the OLD receive task is still alive (an EByte loop in its 30 s busy pause),
+    """the reconnect task ended when the state reads CONNECTED and the OLD receive task is still alive (an EByte loop in its 30 s busy pause),
     while the application connect() that reported CONNECTED is cancelled before it replaces that task"""
     return _script("C13_known_reconnect_stops_other_connect_cancelled.py")
 
